@@ -217,10 +217,15 @@ func (fs *Filespace) writer(destPath string) (writer filesystem.Writer, err erro
 	dir.Lock()
 	defer dir.Unlock()
 	if node, err = dir.getNode(destNodeName); err != nil {
+		// the handler takes the data lock of the new file BEFORE the file becomes visible,
+		// so nobody can read the (empty) content which nobody wrote
 		file = NewFile(destNodeName, filesystem.DefaultUnixFileMode, time.Now(), []byte{})
+		handler := newFileWriteHandler(file)
 		if err = dir.addNode(file); err != nil {
+			handler.Close()
 			return nil, err
 		}
+		return handler, nil
 	} else {
 		if file, ok = node.(*File); !ok {
 			return nil, goaterr.Errorf("Node %s must be a file", destPath)
